@@ -9,6 +9,7 @@
 
 import abc
 import copy
+import math
 import warnings
 from functools import partial
 from multiprocessing import Value, Lock
@@ -261,7 +262,8 @@ class AbstractContainer(abstract.GeomdlBase):
         self.reset()
 
     def _sample_size_getter_common(self, idx):
-        return int(1 / self._delta[idx]) + 1
+        # The same relation between the sample size and the delta as the elements of the container use
+        return max(2, int(math.floor((1.0 / self._delta[idx]) + 0.5)))
 
     def _sample_size_setter_common(self, idx, value):
         # Check and set the delta value corresponding to the idx-th parametric dimension
@@ -269,7 +271,7 @@ class AbstractContainer(abstract.GeomdlBase):
             raise GeomdlException("Sample size must be an integer value bigger than 2")
         if value < 2:
             raise GeomdlException("Sample size must be an integer value bigger than 2")
-        self._delta[idx] = 1.0 / float(value - 1)
+        self._delta[idx] = 1.0 / float(value)
 
     @property
     def data(self):
